@@ -594,3 +594,93 @@ def run_segments_subprocess(spec, variants, ops, root, max_procs=16):
             raise BrokenCheck('segment subprocess failed: ' + (p.stderr or p.stdout)[-800:])
         out.append(json.loads(p.stdout.split('@@SEGMENT@@')[-1]))
     return out
+
+
+# --------------------------------------------------------------------------------------------- run records (C18)
+
+def canon_run_info(ri):
+    if ri is None:
+        return None
+    return {'task': {'name': ri['task']['name'], 'class': ri['task']['class']}, 'parameters': ri['parameters'],
+            'config': {'name': ri['config']['name'], 'namespace': ri['config']['namespace']},
+            'input_tasks': ri.get('input_tasks', {}), 'log': ri['log']}
+
+
+def run_history_steps(spec, variants, ops, root, obs, mod):
+    """execute ops on the real code (module already imported and prepared), observing log / run_info of every task object
+    after every operation; returns objects, run events (attempt order, emitted lines/records, success) and observations"""
+    b = pl.Built(root / 'src', spec['module'], spec)
+    data = root / 'data'
+    chains, all_chains, observations = [], [], []
+    mod.RUNLOG.clear(); mod.FAIL.clear()
+    # a single ordered trace: attempts ('A', id), emissions (id, msgs, recs), successes ('S', id)
+    trace = mod.EMITTED
+
+    class TraceList(list):
+        def __init__(self, tag):
+            super().__init__(); self.tag = tag
+
+        def append(self, x):
+            trace.append((self.tag, x)); super().append(x)
+    obs.attempts, obs.success = TraceList('A'), TraceList('S')
+    for op in ops:
+        if op['op'] == 'build':
+            v = variants[op['variant']]
+            chain, err = pl.build(b, data, main='main_' + v['file'], context=v.get('context'))
+            if err:
+                return None
+            chains.append(chain); all_chains.append(chain)
+        elif op['op'] == 'restart':
+            continue
+        else:
+            chain = chains[op['chain']] if op['chain'] < len(chains) else None
+            if chain is None:
+                continue
+            task = task_by_slug(chain, op['task'], op.get('pick', 0)) if 'task' in op else None
+            try:
+                if op['op'] == 'value' and task is not None:
+                    mod.FAIL.clear(); mod.FAIL.update(op['failing'])
+                    try:
+                        _ = task.value
+                    except mod.RunFailure:
+                        pass
+                    finally:
+                        mod.FAIL.clear()
+                elif op['op'] == 'force' and task is not None:
+                    task.force(delete_data=False)
+                elif op['op'] == 'chain_force':
+                    ts = [task_by_slug(chain, s) for s in op['tasks']]
+                    chain.force([t.fullname for t in ts if t is not None], recompute=op['recompute'], delete_data=False)
+                elif op['op'] == 'inspect' and task is not None:
+                    inspect_op({}, op['what'], task, chain)
+            except Exception as e:  # noqa
+                observations.append({'unexpected': f'{type(e).__name__}: {e}'[:200], 'op': op, 'events_so_far': 0, 'by_loc': {}})
+                continue
+        n_attempts = sum(1 for x in trace if len(x) == 2 and x[0] == 'A')
+        by_loc = {}
+        for t in topo_objects(all_chains):
+            lk = (str(t.path), t.name_for_persistence)
+            by_loc[lk] = {'fullname': t.fullname, 'log': t.log, 'run_info': canon_run_info(t.run_info)}
+        observations.append({'events_so_far': n_attempts, 'by_loc': by_loc, 'op': op})
+    objs = topo_objects(all_chains)
+    idx = {id(t): i for i, t in enumerate(objs)}
+    locs = {}
+    objects = []
+    for t in objs:
+        lk = (str(t.path), t.name_for_persistence)
+        objects.append({'fullname': t.fullname, 'slug': t.slugname, 'cls': t.__class__.__name__, 'ns': t.get_config().namespace,
+                        'config_name': t.get_config().name, 'params': pl.model_params(t), 'loc': locs.setdefault(lk, len(locs)),
+                        'input_keys': dict(t.get_config().input_tasks)})
+    events, open_ev = [], {}
+    for x in trace:
+        if len(x) == 2 and x[0] == 'A':
+            ev = {'obj': idx[x[1]], 'obj_loc': objects[idx[x[1]]]['loc'], 'emitted': False, 'msgs': [], 'recs': [], 'ok': False}
+            events.append(ev); open_ev[x[1]] = ev
+        elif len(x) == 2 and x[0] == 'S':
+            if x[1] in open_ev:
+                open_ev.pop(x[1])['ok'] = True
+        elif len(x) == 3 and x[0] in open_ev:
+            open_ev[x[0]].update(emitted=True, msgs=x[1], recs=x[2])
+    for o in observations:
+        o['by_loc'] = {locs[lk]: v for lk, v in o['by_loc'].items() if lk in locs}
+    return {'objects': objects, 'events': events, 'observations': observations}
